@@ -890,7 +890,10 @@ package reflect
 // cached node is returned only for a key that determines all of this (A-KEY), so two Thrift
 // meanings of one Go type never share a node.
 //@ const ghost $inbuild = (Array Int Bool)
-//@ spec func keyBase(t *tType, s string, S reflect.Type) bool = t != nil && t.Tag == kTag(s, S) && t.WT == kWire(s, S) && t.T == (kEnum(s, S) ? tENUM : kWire(s, S)) && t.RT == S
+// scanKind: Go kinds whose values hold pointers - memory for them must be scanned by the collector (C06:
+// a decoded string or slice header in unscanned memory loses its bytes at the next collection)
+//@ spec func scanKind(k Int) bool = k == reflect.Array || k == reflect.Map || k == reflect.Ptr || k == reflect.Slice || k == reflect.String || k == reflect.Struct
+//@ spec func keyBase(t *tType, s string, S reflect.Type) bool = t != nil && t.Tag == kTag(s, S) && t.WT == kWire(s, S) && t.T == (kEnum(s, S) ? tENUM : kWire(s, S)) && t.RT == S && (scanKind(rtKind(S)) ==> t.MallocAbiType != 0)
 //@     && (t.IsPointer <==> kTag(s, S) == defs.T_pointer) && t.SimpleType == simpleTypes[t.T] && t.FixedSize == typeToSize[t.T]
 //@     && (t.T == tSTRING && !t.IsPointer ==> t.Tag == defs.T_string || t.Tag == defs.T_binary)
 //@ spec func keyKids(t *tType, s string, S reflect.Type) bool = (t.IsPointer ==> t.V != nil && t.V < $brk && !t.V.IsPointer) && (kTag(s, S) == defs.T_map ==> t.K != nil && t.V != nil)
